@@ -56,12 +56,11 @@ def targetOutsideRoot (vp : Path) (target : String) : Bool :=
   if isAbs target then (cleanComps false (comps target)).1 > 0
   else (cleanComps false (vp.dropLast ++ comps target)).1 > 0
 
-/-- `fileNode.targetPath` as trie segments -/
+/-- `fileNode.targetPath` as trie segments: `path.Clean` of the absolute target, or of the relative one joined to
+the link's directory (fix a23f8926 cleans absolute targets too) -/
 def targetSegs (vp : Path) (target : String) : List String :=
-  if isAbs target then
-    let rest := (target.drop 1).toString
-    if rest = "" then [] else comps rest                       -- kept verbatim, never cleaned
-  else (cleanComps true (vp.dropLast ++ comps target)).2         -- path.Clean(path.Join(path.Dir(virtualPath), target))
+  if isAbs target then (cleanComps true (comps target)).2
+  else (cleanComps true (vp.dropLast ++ comps target)).2
 
 /-- the type switch of the loop body: `handleDir` / `handleFile` / `handleSymlink` as acceptance tests -/
 def classify (limit : Nat) (r : RawEntry) (vp segs : Path) (isWh : Bool) : PEntry :=
